@@ -75,7 +75,9 @@ def check(pid, tier, replay=None):
     for kind in KINDS:
         hs = artgen.histories('quick', seed(), kind, scan_ops=True)
         if tier != 'thorough':
-            hs = hs[:4] + hs[4:40:2]
+            td = [h for h in hs if h.tag.startswith('teardown')]
+            rest = [h for h in hs if not h.tag.startswith('teardown')]
+            hs = rest[:4] + rest[4:40:2] + td[::5]
         hs = [h for h in hs if 'k1' not in h.tag]
         lines = []
         spans = []
